@@ -14,7 +14,8 @@ RULE = ('worlds = every DAG with ordered bases on <=n layers x {class layers '
         'exactly one layer hook-less} x every non-empty subset of layers owning '
         'a test x {with, without a unit test} x every placement of <=F faults '
         'from {setUp raises, tearDown raises, tearDown raises '
-        'NotImplementedError} x option vectors; each world is run on the real '
+        'NotImplementedError} x option vectors; plus every multiple-inheritance '
+        'DAG on 4 layers under all 24 namings of its nodes; each world is run on the real '
         'Runner (children = real Runner on a fresh build, in-process) and the '
         'set-up/tear-down/test trace of every (virtual) process is monitored; '
         'plus 5 layer shapes x every position of a layer that cannot be torn down x {sequential, -j2} as REAL processes (pid-tagged trace: fresh pid per resumed layer); non-trivial = >=2 layers or >=1 fault; distinct = canonical JSON of '
@@ -25,7 +26,7 @@ ASSUMPTIONS = [
     'CPython 3.12.1 only',
 ]
 BOUND = {
-    'quick': 'all DAGs n<=3, both kinds, both namings, all owner subsets; all-hooks worlds: <=2 faults under {none,-j2}, <=1 fault under {-x,--repeat 2,--shuffle,--layer X}; with a unit test: <=1 fault under {none,--layer,-j2}; one hook-less layer (each position): <=1 fault under {none,-x,-j2}',
+    'quick': 'all multiple-inheritance DAGs n=4 x 24 namings x {all layers, top layer} owning tests; all DAGs n<=3, both kinds, both namings, all owner subsets; all-hooks worlds: <=2 faults under {none,-j2}, <=1 fault under {-x,--repeat 2,--shuffle,--layer X}; with a unit test: <=1 fault under {none,--layer,-j2}; one hook-less layer (each position): <=1 fault under {none,-x,-j2}',
     'thorough': 'all DAGs n<=3 x kinds x namings x owners x unit x (<=2 faults all-hooks, <=1 fault with one hook-less layer) x 12 option vectors (incl. -j3 and pairs); plus n=4: all 160 DAGs, fwd naming, all-hooks, <=1 fault, owner sets of size<=2 and full, {none,-j2,--repeat 2}',
 }
 CHUNK = 256
@@ -82,6 +83,24 @@ def cases(tier, seed):
                                     for ok in optkeys:
                                         yield [n, g, kind, naming, hookless,
                                                owners, unit, faults, ok]
+    # tear-down ORDER over larger graphs: every multiple-inheritance DAG with
+    # ordered bases on 4 layers under every naming of the nodes (the runner
+    # orders layers by name), every layer / only the most derived layer owning
+    # a test, with and without one layer that cannot be torn down
+    import itertools
+    n = 4
+    for g in worlds.dags(n):
+        if max(len(b) for b in g) < 2:
+            continue
+        kinds = ['i'] + (['c'] if worlds.c3_ok(g) else [])
+        for perm in itertools.permutations(range(n)):
+            for kind in kinds:
+                for owners in (list(range(n)), [n - 1]):
+                    yield [n, g, kind, list(perm), None, owners, False, {}, 'none']
+                if tier == 'thorough':
+                    for nie in range(n):
+                        yield [n, g, kind, list(perm), None, list(range(n)), False,
+                               {nie: {'tearDown': 'NIE'}}, 'none']
     # real processes: "the remaining layers run in fresh subprocesses"
     for shape in CLI_SHAPES:
         nl = len(CLI_SHAPES[shape][0])
